@@ -3,6 +3,8 @@ package props
 import (
 	"fmt"
 
+	jd "github.com/josephburnett/jd/v2"
+
 	"verifharness/gen"
 	"verifharness/mon"
 	"verifharness/ref"
@@ -42,7 +44,29 @@ func c08Targets(c *mon.Ctx, prof gen.Profile, a, b any, hs []ref.Hunk, o OptSet)
 			if !isArr {
 				return v
 			}
-			switch r.Intn(8) {
+			switch r.Intn(9) {
+			case 8:
+				// a member lacking one of the keys gets a neighbour, placed before it, that
+				// agrees on the keys the member has and carries the one it lacks
+				kind = "partial-key-decoy-first"
+				if len(o.Keys) >= 2 {
+					for j, e := range l {
+						m, isObj := e.(map[string]any)
+						if !isObj {
+							continue
+						}
+						for _, k := range o.Keys {
+							if _, has := m[k]; has {
+								continue
+							}
+							decoy := ref.Clone(m).(map[string]any)
+							decoy[k] = "decoy"
+							out := append([]any{}, l[:j]...)
+							out = append(out, decoy)
+							return append(out, l[j:]...)
+						}
+					}
+				}
 			case 0:
 				kind = "non-array:scalar"
 				return gen.Scalar(r, prof)
@@ -202,11 +226,13 @@ func init() {
 	p := &mon.Property{
 		ID: "C08",
 		Rule: "cases are (a, b) pairs diffed under SET, MULTISET, SetKeys(id), SetKeys(id,k2), SET+SetKeys(id); each diff is applied (in memory or re-read) to a, permutations of a, b, random perturbations, " +
-			"and targets built at the addressed array: replaced by a scalar / an object / removed, the removed member absent, one copy fewer (multiset), a member added or duplicated, a keyed member with a non-key field changed; " +
+			"and targets built at the addressed array: replaced by a scalar / an object / removed, the removed member absent, one copy fewer (multiset), a member added or duplicated, a keyed member with a non-key field changed, a decoy carrying the key a partial-key member lacks placed before it; under two keys some members lack one key (the same members in a and b, hunks then carry null for it); " +
+			"plus constructed {} / [] hunks no single Diff emits (a value under both - and +, more copies removed than present, members added that are already there) over a small alphabet; " +
 			"every Patch event is compared with the reference set / bag / keyed-member interpreter under the set or multiset reading; non-trivial = target is not a itself; distinct = distinct (a, b, options, target)",
 		Floors: map[string]int{"patch_events": 100000, "both_apply": 20000, "both_reject": 10000, "target:permutation-of-a": 10000,
 			"target:addressed:non-array:scalar": 500, "target:addressed:removed-element-absent": 300, "target:addressed:one-copy-fewer": 300,
-			"target:addressed:keyed-member-nonkey-field-changed": 300, "reject:set remove": 300, "reject:multiset remove": 300, "reject:no member": 100, "hunk_keyed_member": 1000},
+			"target:addressed:keyed-member-nonkey-field-changed": 300, "reject:set remove": 300, "reject:multiset remove": 300, "reject:no member": 100, "hunk_keyed_member": 1000,
+			"members_lacking_a_key": 1000, "constructed_hunks": 5000, "constructed_hunk_removes_and_adds_one_value": 1000},
 		Assumptions: []string{
 			"reference semantics: {} hunk = every removed value present under the recursive set reading, added values inserted if absent, others untouched; [] hunk = by multiplicities; {\"k\":v} = the member object whose k fields equal v, rest of the path applied strictly inside it, any failure fails the patch",
 			"SetKeys inputs satisfy the stated precondition; key values are scalars; key tuples never permutations of each other (known finding F21 lives in C01)",
@@ -226,6 +252,14 @@ func init() {
 				} else {
 					a, b = PairFor(c.R, o, prof)
 				}
+				if len(o.Keys) >= 2 && i%3 == 0 {
+					// some members lack one of the keys (the same members in a and b); their
+					// hunks carry null for the missing key and must match no member that has it
+					if a2, b2, ok := dropSomeKeys(c.R.U64(), a, b, o.Keys); ok {
+						a, b = a2, b2
+						c.Feature("members_lacking_a_key")
+					}
+				}
 				c08Case(c, ref.ToJSON(a), ref.ToJSON(b), o, prof)
 			},
 		})
@@ -243,7 +277,158 @@ func init() {
 			},
 		})
 	}
+	p.Strata = append(p.Strata, mon.Stratum{
+		Name: "constructed-set-and-multiset-hunks",
+		N:    qt(12000, 600000),
+		Run: func(c *mon.Ctx, i int) {
+			// hunks no single Diff emits (hand-written or squashed): values listed under
+			// both - and +, more copies removed than present, additions of members
+			// already there; applied to targets over the same small alphabet
+			r := c.R
+			alpha := []any{1.0, 2.0, 3.0, "x", []any{1.0, 2.0}, []any{2.0, 1.0}, map[string]any{"k": 1.0}, nil}
+			bag := i%2 == 1
+			reading := ref.Set
+			if bag {
+				reading = ref.Multiset
+			}
+			pick := func(n int, distinct bool) []jd.JsonNode {
+				var out []jd.JsonNode
+				seen := map[string]bool{}
+				for k := 0; k < n; k++ {
+					v := gen.Pick(r, alpha)
+					if distinct {
+						cn := ref.Canon(v, ref.Set)
+						if seen[cn] {
+							continue
+						}
+						seen[cn] = true
+					}
+					out = append(out, Node(v))
+				}
+				return out
+			}
+			mk := func() jd.Diff {
+				rr := gen.New(c.Seed, 0xC08C, uint64(i))
+				save := r
+				r = rr
+				defer func() { r = save }()
+				var d jd.Diff
+				for k := r.Range(1, 2); k > 0; k-- {
+					e := jd.DiffElement{}
+					if i%4 >= 2 {
+						e.Path = append(e.Path, jd.PathKey("s"))
+					}
+					if bag {
+						e.Path = append(e.Path, jd.PathMultiset{})
+					} else {
+						e.Path = append(e.Path, jd.PathSet{})
+					}
+					e.Remove = pick(r.Range(0, 4), !bag)
+					e.Add = pick(r.Range(0, 3), !bag)
+					if len(e.Remove)+len(e.Add) == 0 {
+						e.Add = pick(1, false) // a hunk states at least one value
+					}
+					d = append(d, e)
+				}
+				return d
+			}
+			var arr []any
+			for k := r.Range(0, 6); k > 0; k-- {
+				arr = append(arr, gen.Pick(r, alpha))
+			}
+			if arr == nil {
+				arr = []any{}
+			}
+			var target any = arr
+			if r.Chance(0.08) {
+				target = gen.Pick(r, []any{"x", 1.0, map[string]any{"k": 1.0}, nil})
+			}
+			if i%4 >= 2 {
+				target = map[string]any{"s": target, "other": []any{1.0, 1.0}}
+			}
+			tText := ref.ToJSON(target)
+			c.Input("target", tText)
+			d := mk()
+			c.Input("diff", ref.HunksString(Hunks(d)))
+			overlap := false
+			for _, h := range Hunks(d) {
+				for _, x := range h.Remove {
+					for _, y := range h.Add {
+						if ref.Canon(x, reading) == ref.Canon(y, reading) {
+							overlap = true
+						}
+					}
+				}
+			}
+			if overlap {
+				c.Feature("constructed_hunk_removes_and_adds_one_value")
+			}
+			c.Feature("patch_events")
+			c.Feature("constructed_hunks")
+			c.Event()
+			reason, knownID, extra := judgePatch(c, mk(), tText, reading, r.Chance(0.5))
+			c.Nontrivial(joinKey("constructed", tText, ref.HunksString(Hunks(d))))
+			if reason == "" {
+				c.Sample(extra)
+				return
+			}
+			if knownID != "" {
+				c.Known(knownID, reason, extra)
+				return
+			}
+			c.Violation(reason, extra)
+		},
+	})
 	mon.Register(p)
+}
+
+// dropSomeKeys removes one of the set keys from some array-member objects,
+// choosing members by their key tuple so that a and b lose the same keys on
+// the same members. It refuses (ok=false) if two members of one array would
+// end up with the same partial tuple.
+func dropSomeKeys(salt uint64, a, b any, keys []string) (any, any, bool) {
+	ok := true
+	var walk func(v any) any
+	walk = func(v any) any {
+		switch t := v.(type) {
+		case []any:
+			seen := map[string]bool{}
+			for i := range t {
+				t[i] = walk(t[i])
+				o, isObj := t[i].(map[string]any)
+				if !isObj {
+					continue
+				}
+				tuple := ""
+				for _, k := range keys {
+					tuple += ref.Canon(o[k], ref.List) + "|"
+				}
+				h := gen.New(salt, gen.StrPart(tuple)).U64()
+				if h%3 == 0 {
+					delete(o, keys[int(h/3)%len(keys)])
+				}
+				part := ""
+				for _, k := range keys {
+					if x, has := o[k]; has {
+						part += k + "=" + ref.Canon(x, ref.List) + "|"
+					}
+				}
+				if seen[part] {
+					ok = false
+				}
+				seen[part] = true
+			}
+			return t
+		case map[string]any:
+			for _, k := range ref.SortedKeys(t) {
+				t[k] = walk(t[k])
+			}
+			return t
+		}
+		return v
+	}
+	a2, b2 := walk(ref.Clone(a)), walk(ref.Clone(b))
+	return a2, b2, ok
 }
 
 // keyedMemberPair builds arrays of keyed objects where members keep their
